@@ -453,12 +453,12 @@ def run(ctx):
                 'of the byte stream (link).  distinct = distinct (set-up, multiset of (cardinality, client '
                 'program, peer program, deadline?), announced limits, waiters occurred)')
     cases = list(ctx.corpus())
-    n = ctx.n(600, 8000)
+    n = ctx.n(600, 4000)
     for _ in range(n):
         cases.append(gen_case(rng, 'link'))
     for _ in range(n):
         cases.append(gen_case(rng, 'client'))
-    for i in range(ctx.n(40, 600)):
+    for i in range(ctx.n(40, 300)):
         cases.append(gen_bulk(rng, 'link' if i % 4 else 'client'))
     evaluate(ctx, res, cases)
     return res
